@@ -79,12 +79,36 @@ def model_float(model, name, default=None):
 # worker side
 
 
-class CaseTimeout(Exception):
-    pass
+class CaseTimeout(BaseException):
+    """Raised by SIGALRM; a BaseException so that `except Exception` in checks cannot swallow it."""
 
 
 def _alarm(signum, frame):
     raise CaseTimeout()
+
+
+def _reduce_frames(tb):
+    """Name of the furax reduction-driver frame a traceback passes through (None if it does not)."""
+    hit = None
+    while tb is not None:
+        code = tb.tb_frame.f_code
+        if code.co_filename.endswith(os.path.join('furax', '_base', 'rules.py')) and code.co_name == 'apply':
+            hit = f'{os.path.basename(code.co_filename)}:{code.co_name}'
+        tb = tb.tb_next
+    return hit
+
+
+def _replay_nonterm(mod, key, limit):
+    signal.signal(signal.SIGALRM, _alarm)
+    signal.alarm(int(limit))
+    try:
+        mod.run_case(key)
+    except CaseTimeout as ex:
+        where = _reduce_frames(ex.__traceback__)
+        return (where is not None), f'timed out again after {limit}s' + (f' inside {where}' if where else ' (outside the reduction driver)')
+    finally:
+        signal.alarm(0)
+    return False, 'the case completed on replay'
 
 
 def _work(job):
@@ -100,8 +124,14 @@ def _work(job):
             res = mod.run_case(key)
         finally:
             signal.alarm(0)
-    except CaseTimeout:
-        res = inconclusive(f'case exceeded {per_case_timeout}s')
+    except CaseTimeout as ex:
+        where = _reduce_frames(ex.__traceback__)
+        if where:
+            # the time limit expired inside furax's reduction driver: candidate non-termination of reduce()
+            res = violation(f'reduce() did not return within {per_case_timeout}s (stuck in {where})',
+                            signature='nontermination:reduce', kind='nonterm')
+        else:
+            res = inconclusive(f'case exceeded {per_case_timeout}s')
     except BaseException as ex:  # noqa: BLE001
         name = type(ex).__name__
         if name in ('Unsupported', 'OutOfBounds', 'NonFinite'):
@@ -156,7 +186,7 @@ def run_check(mod, argv=None):
         keys = [k for k in keys if args.only in repr(k)]
     twins = list(mod.twins()) if hasattr(mod, 'twins') and not args.only else []
     budget = args.budget or getattr(mod, 'BUDGET', {}).get(tier, 600 if tier == 'quick' else 3000)
-    per_case = getattr(mod, 'CASE_TIMEOUT', {}).get(tier, 120 if tier == 'quick' else 600)
+    per_case = getattr(mod, 'CASE_TIMEOUT', {}).get(tier, 60 if tier == 'quick' else 300)
     jobs = [(mod.__name__, ('twin', k), per_case) for k in twins] + [(mod.__name__, k, per_case) for k in keys]
     known_sigs = {f['signature'] for f in load_known(mod.ID)[0]}
     results, not_reached = _dispatch(jobs, args.jobs, budget, t0, verbose=args.verbose, known_sigs=known_sigs)
@@ -244,7 +274,18 @@ def finish(mod, tier, seed, results, twin_res, not_reached, t0):
     for r in viols:
         try:
             import fxv.env  # noqa: F401
-            reproduced, msg = mod.replay(r['key'], r.get('model', {}), r)
+            limit = getattr(mod, 'CASE_TIMEOUT', {}).get(tier, 60 if tier == 'quick' else 300)
+            if r.get('kind') == 'nonterm':
+                reproduced, msg = _replay_nonterm(mod, r['key'], limit)
+            else:
+                signal.signal(signal.SIGALRM, _alarm)
+                signal.alarm(int(limit))
+                try:
+                    reproduced, msg = mod.replay(r['key'], r.get('model', {}), r)
+                except CaseTimeout:
+                    reproduced, msg = False, f'replay did not finish within {limit}s'
+                finally:
+                    signal.alarm(0)
         except Exception as ex:  # noqa: BLE001
             reproduced, msg = False, f'replay raised {type(ex).__name__}: {ex}'
         r['replay_msg'] = msg
